@@ -125,7 +125,7 @@ Fixpoint frag (c : codec) : bool :=
   | CBool | CInt _ | CUint _ | CFlat _ | CF32 | CF64 | CString | CBytes | CTime _ => true
   | CNull c' | CPtr c' => frag c' && topb c'
   | CStruct _ _ fs => forallb (fun f => frag (f_codec f)) fs
-  | CSliceVar c' => match c' with CBool | CInt _ | CUint _ | CFlat _ => true | _ => false end
+  | CSliceVar c' => match c' with CBool | CInt _ | CUint _ | CFlat _ | CPtr (CBool | CInt _ | CUint _ | CFlat _) => true | _ => false end
   | CSliceFix c' => match c' with CF32 | CF64 => true | _ => false end
   | CSliceLen c' | CSliceProto c' => frag c' && topb c'
   | CMap k v | CMapProto k v => frag k && frag v && topb k && topb v
@@ -148,7 +148,8 @@ Proof.
     cbn [forallb] in Hf. apply andb_true_iff in Hf. destruct Hf as [Hf1 Hf2].
     destruct Hall as [(A & B & C) Hall]. split; [|apply IHr; assumption].
     split; [apply Hf0; assumption|]. split; [unfold max_sane_index in B; lia|exact C].
-  - destruct Hs as [Hs Hw]. destruct c; try discriminate; cbn [plain_varint sane] in *; auto.
+  - destruct Hs as [Hs Hw]. destruct c; try discriminate; cbn [plain_varint plain_varint0 sane] in *; auto.
+    destruct c; try discriminate; cbn [plain_varint0 sane] in *; auto.
   - destruct c; try discriminate; exact I.
   - destruct Hs as [Hs Hw]. apply andb_true_iff in Hf. destruct Hf as [Hf Ht].
     split; [apply IH; assumption|]. split; [exact Hw|apply topb_top; exact Ht].
